@@ -96,6 +96,14 @@ EXTRA_ITEMS = [
     "#[ts(concrete(T = i32))] struct S<T> { xs: [T; 3] }",
     "#[ts(concrete(T = i32))] struct S<T: 'static> { xs: Vec<[T; 2]>, ys: (T, Option<T>), zs: &'static [T] }",
     "#[ts(bound = \"T: ts_rs::TS\")] struct S<T> { a: T }",
+    "#[ts(export)] struct S<T> { a: T }",
+    "#[ts(export)] struct S<A, B = i32> { a: A, b: B }",
+    "#[ts(export, concrete(T = i32))] struct S<T> { a: T }",
+    "#[ts(export)] struct S<'a> { a: &'a str }",
+    "#[ts(export)] struct r#type { a: i32 }",
+    "#[ts(export)] enum E<T> { A(T), B }",
+    "#[ts(export)] struct S<const N: usize> { a: [i32; N] }",
+    "#[ts(export)] struct S<T, const N: usize = 2> { a: [T; N] }",
     "struct S { a: fn(i32) -> i32 }",
     "struct S { a: *const i32 }",
     "struct S { a: [i32] }",
@@ -195,7 +203,8 @@ def compile_probe(items, tag):
         lines.append("mod i%d { use super::*; #[derive(TS)] %s }" % (idx, src))
         line_of[len(lines)] = idx
     open(os.path.join(d, "src", "lib.rs"), "w").write("\n".join(lines) + "\n")
-    p = vlib.cargo(["check", "--offline", "--message-format=json", "-q"], d, capture=True)
+    # (--tests: the library in test mode, so that the test function #[ts(export)] generates is compiled as well)
+    p = vlib.cargo(["check", "--offline", "--tests", "--message-format=json", "-q"], d, capture=True)
     res = {idx: "ok" for idx, _ in items}
     seen_err = False
     for l in p.stdout.splitlines():
@@ -322,6 +331,7 @@ def run(tier):
                     "variant": sorted("%s:%s:%s" % (x["ns"], x["key"], x["val"]) for x in it["v"]),
                     "field": sorted("%s:%s:%s" % (x["ns"], x["key"], x["val"]) for x in it["f"]),
                     "container_override": any(x["ns"] == "ts" and x["key"] in ("as", "type") for x in it["c"]),
+                    "generics": it.get("gen", "none"), "export": any(x["ns"] == "ts" and x["key"] == "export" and x["val"] == "ok" for x in it["c"]),
                     "variant_skip": any(x["key"] == "skip" and x["val"] == "ok" for x in it["v"]),
                     "real": c["real"], "compiled": c["compiled"]}
             v.fail(desc, {"source": c["src"], "message": c["msg"], "model_outcome": c["pred"], "documented": c["documented"]})
